@@ -1,4 +1,5 @@
 import GohtVerif.Model.Compile
+import GohtVerif.Proofs.Lemmas.LexOneLine
 /-! # C11 — Go code around templates, package clause and imports pass through intact
 
 The hoisting rules are theorems of the parser model; the lossless pass-through of Go lines is tied
@@ -109,6 +110,57 @@ theorem imports_order (toks ui : List Tok) : ∃ rest, toks.foldl addImport ui =
     split
     · exact ⟨rest, rfl⟩
     · exact ⟨[a] ++ rest, by simp⟩
+
+/-- **The word after `@` stays on its line** — on every well-formed input, wherever the lexer stands, the word
+`lexTemplate` reads (stop set as extracted from lexers.go on this run) is made of the runes in front of the
+cursor up to, and not including, the first blank, line feed or carriage return: a Go line that starts with `@`
+cannot swallow the lines below it. -/
+theorem template_word_stays_on_its_line {inp : List Rune} (hwf : WF inp) (l : L) (h : SInv inp l) :
+    ∃ acc : List Rune, l.cur.rest = acc ++ (l.acceptUntil Gen.lexTemplate_acceptUntil0).cur.rest ∧
+      (l.acceptUntil Gen.lexTemplate_acceptUntil0).s = l.s ++ encAll acc ∧
+      ∀ r ∈ acc, r.cp ≠ 10 ∧ r.cp ≠ 13 ∧ r.cp ≠ 32 := by
+  obtain ⟨acc, h1, h2, h3⟩ := ext_acceptUntil hwf l Gen.lexTemplate_acceptUntil0 h
+  refine ⟨acc, h1, h2, fun r hr => ?_⟩
+  have hn := h3 r hr
+  have h10 : (10 : Nat) ∈ Gen.lexTemplate_acceptUntil0 := by decide
+  have h13 : (13 : Nat) ∈ Gen.lexTemplate_acceptUntil0 := by decide
+  have h32 : (32 : Nat) ∈ Gen.lexTemplate_acceptUntil0 := by decide
+  exact ⟨fun e => hn (e ▸ h10), fun e => hn (e ▸ h13), fun e => hn (e ▸ h32)⟩
+
+/-- **An import inside a group is one line** — on every well-formed input, from every lexer state with an empty
+pending literal, each import token `lexImports` delivers contains no line feed (stop set as extracted from
+lexers.go on this run): the text compared when duplicates are removed never runs into the next line. -/
+theorem grouped_import_is_one_line {inp : List Rune} (hg : Good inp) (l : L) (h : SNil inp l) (ho : l.out = []) :
+    ∀ t ∈ (lexImports l).1.out, t.typ = .import → countNl t.lit = 0 :=
+  imports_token_one_line hg l h ho (by decide)
+
+/-- **`@goht` is the keyword only when a blank follows it** — the lexer enters a template declaration exactly
+when that word is `@goht` and the next character is a blank; every other line that starts with `@` is Go code. -/
+theorem template_keyword_needs_blank (l : L) :
+    (lexTemplate l).2 = .gohtStart ↔
+      ((l.acceptUntil Gen.lexTemplate_acceptUntil0).s = kwGoht ∧ ((l.acceptUntil Gen.lexTemplate_acceptUntil0).peek).2 = 32) := by
+  unfold lexTemplate
+  simp only []
+  constructor
+  · intro h
+    split at h
+    · rename_i hk
+      split at h
+      · rename_i hc
+        exact ⟨by simpa using hk, by simpa using hc⟩
+      · cases h
+    · cases h
+  · intro ⟨hk, hc⟩
+    simp [hk, hc]
+
+theorem at_line_is_go_code_otherwise (l : L) (h : (lexTemplate l).2 ≠ .gohtStart) : (lexTemplate l).2 = .goCode := by
+  unfold lexTemplate at *
+  simp only [] at *
+  split
+  · split
+    · rename_i hk hc; simp [hk, hc] at h
+    · rfl
+  · rfl
 
 /-- goht's own imports and the default package, as extracted from nodes.go on this run -/
 theorem extracted_defaults :
